@@ -243,7 +243,8 @@ Definition ind_head (c : oconfig) (o : iopts) (node : anode) (st : fstate) : fst
   let st :=
     match an_name node with
     | Some ((_ :: _) as nm) =>
-        if negb (str_eqb nm s_div) || match primary with [] => true | _ => false end
+        if negb (str_eqb nm s_div)
+           || negb (existsb (fun a => match aa_value a with Some _ => true | None => false end) primary)
         then push_str c (io_before_name o ++ nm ++ io_after_name o) st
         else st
     | _ => st
